@@ -68,7 +68,7 @@ def djb(s, h=5381):
 def host_hash(i, kind):
     if kind == "u":
         return djb("/nonexistent/ltv-gw-%d.sock" % i)
-    return djb("127.0.0.%d" % (i + 1)) ^ (9000 + i)
+    return djb("127.0.0.%d" % (i + 1)) ^ (9000 + 37 * i)
 
 
 def base_hash(balance, key):
@@ -117,6 +117,72 @@ def check_state(spec, hosts, slots, glob):
     return None
 
 
+class Avail:
+    """the oracle's own view of which procs are in rotation, derived only from the
+    history itself: the scripted connect()/SO_ERROR answers, the configured
+    disable-time / connect-timeout and the clock (sum of the ticks).  It errs on the
+    side of "down": a re-enable it cannot see is ignored until the next trigger."""
+
+    def __init__(self, spec):
+        self.spec = spec
+        self.now = T0
+        self.down = {}            # (h, p) -> disabled_until
+        self.cur = {}             # slot -> [h, p, since, delayed]
+        self.lost = set()         # procs disabled during the current event
+        self.up0 = set()
+
+    def begin(self):
+        self.lost = set()
+        self.up0 = set((h, p) for h, sp in enumerate(self.spec) for p in range(sp[0])
+                       if (h, p) not in self.down)
+
+    def disable(self, h, p):
+        du = self.now + self.spec[h][1]
+        self.down[(h, p)] = max(du, self.down.get((h, p), du))
+        self.lost.add((h, p))
+
+    def candidates(self):
+        return sorted(self.up0 - self.lost)
+
+    def trigger(self, dt):
+        self.now += dt
+        for s, c in list(self.cur.items()):
+            ct = self.spec[c[0]][2]
+            if c[3] and ct and self.now - c[2] > ct:
+                self.disable(c[0], c[1])
+                del self.cur[s]
+        for k in [k for k, du in self.down.items() if du < self.now]:
+            del self.down[k]
+
+    def dial(self, s, h, p, letter):
+        unix = self.spec[h][5] == "u"
+        if letter == "k":
+            self.cur[s] = [h, p, self.now, False]
+        elif letter in "rn" or (letter == "a" and not unix):
+            self.disable(h, p)
+            self.cur.pop(s, None)
+        else:
+            self.cur[s] = [h, p, self.now, True]
+
+    def so_error(self, s, letter):
+        c = self.cur.get(s)
+        if c is None or not c[3]:
+            return
+        if letter in "rt":
+            self.disable(c[0], c[1])
+            self.cur.pop(s, None)
+        else:
+            c[3] = False
+
+
+def script_of(fld, key):
+    if len(fld) > 1:
+        for g in fld[-1].split(","):
+            if g.startswith(key + "="):
+                return g[2:]
+    return ""
+
+
 def oracle_full(line, out):
     """first violated clause of the property on this history, with the details"""
     t = line.split(" ")
@@ -137,6 +203,7 @@ def oracle_full(line, out):
     prev_hosts = [(0, 0, sp[0], [], [("R", 0, 0, 0)] * sp[0]) for sp in spec]
     prev_glob = dict(G=0, F=0, L=-1, N=0, T=T0)
     prev_slots = [None] * nslots
+    av = Avail(spec)
     for i, op in enumerate(ops):
         st = steps[i]
         k = st.find("#")
@@ -194,6 +261,52 @@ def oracle_full(line, out):
                         return "slot %d still waiting for response after %ds (read-timeout %d)%s" % (s, now - c[9], sp[3], where)
                     if (c[5] & 2) and sp[4] and now - c[10] > sp[4]:
                         return "slot %d still waiting to write after %ds (write-timeout %d)%s" % (s, now - c[10], sp[4], where)
+        # --- 503 "all handlers down" / a retry that finds no host is a failure of the
+        #     property by itself whenever the oracle's own availability view still has
+        #     an enabled proc (every balance mode, arrival and gw_reconnect alike)
+        av.begin()
+        conn = script_of(fld, "c")
+        ci = 0
+        opslot = int(fld[0]) if kind in "aesc" and fld[0].isdigit() else -1
+        pend = []                       # connect() calls not yet attributed to a slot (trigger jobs)
+        for r in res:
+            if r == "T":
+                av.trigger(int(fld[0]))
+            elif r == "C":
+                av.cur.pop(opslot, None)
+            elif r[0] == "E" and r[1:].isdigit():
+                if int(r[1:]) & 14:
+                    av.so_error(opslot, (script_of(fld, "s") or "y")[0])
+            elif r[0] == "D":
+                h, p = (int(x) for x in r[1:].split("."))
+                letter = conn[ci] if ci < len(conn) else "p"
+                ci += 1
+                if kind == "t":
+                    pend.append((h, p, letter))
+                    if letter in "rn" or (letter == "a" and spec[h][5] != "u"):
+                        av.disable(h, p)
+                elif h >= 0 and p >= 0:
+                    av.dial(opslot, h, p, letter)
+            elif r == "A-":
+                c = av.candidates()
+                if c:
+                    return "all handlers down (HTTP 503) on arrival although host %d proc %d is in rotation by the oracle's own view%s" % (c[0][0], c[0][1], where)
+            elif "=" in r and r.split("=")[0].isdigit():
+                sl = int(r.split("=")[0])
+                if kind == "t":
+                    for h, p, letter in pend:
+                        if h >= 0 and p >= 0:
+                            av.dial(sl, h, p, letter)
+                    pend = []
+                body = r.split("=", 1)[1]
+                if body.startswith("fin"):
+                    av.cur.pop(sl, None)
+                    if body.endswith("h"):
+                        c = av.candidates()
+                        if c:
+                            return "retry found no host (HTTP 503) although host %d proc %d is in rotation by the oracle's own view%s" % (c[0][0], c[0][1], where)
+                elif body == "err":
+                    av.cur.pop(sl, None)
         # --- dispatch only to available backends
         for r in res:
             if r[0] == "D":
@@ -208,7 +321,7 @@ def oracle_full(line, out):
             avail = [h for h in range(nh) if prev_hosts[h][2] > 0]
             if res[0] == "A-":
                 if avail:
-                    return "503 although hosts %s are available%s" % (avail, where)
+                    return "all handlers down (HTTP 503) although hosts %s report active procs%s" % (avail, where)
             else:
                 h = int(res[0][1:])
                 if h not in avail:
@@ -242,7 +355,7 @@ def oracle_full(line, out):
                 nd += 1
             elif "=fin" in r:
                 body = r.split("=fin")[1]
-                code = int(body.rstrip("st"))
+                code = int(body.rstrip("sth"))
                 if "s" in body:
                     # 't' = response was already under way when the backend failed: the
                     # connection is aborted, the status line is history
@@ -300,6 +413,11 @@ def classify(line, out):
         d = st[k + 1:]
         if ",PO" in d:
             tags.add("O")          # some backend out of rotation
+            if ONE_HOST in t[4]:
+                act = [i for i, hd in enumerate(d.split(";")) if hd[:1] == "H" and hd.split(",")[2] != "0"]
+                if len(act) == 1:
+                    ONE_SEEN.add((int(t[1]), t[4].count("/") + 1, act[0]))
+                    tags.add("only%d" % act[0])
     if nd > len(t) - 5:
         tags.add("retry")          # more connect() calls than events: fail-over happened
     kinds = "".join(sorted(set(h.split(".")[5] for h in t[4].split("/"))))
@@ -445,6 +563,56 @@ def gen_exhaustive(depth):
     return out
 
 
+ONE_HOST = "1.9.0.0.0.r"          # pool shape reserved for the one-alive stream (classify looks for it)
+
+
+def _order(balance, nh, key, last, loads):
+    """order in which a request whose connects are all refused walks the pool
+    (generator aid only; the oracle does not use it)"""
+    alive, order = list(range(nh)), []
+    while alive:
+        if balance == 0:
+            m = min(loads[x] for x in alive)
+            h = min(x for x in alive if loads[x] == m)
+        elif balance == 1:
+            h = next(x for x in list(range(last + 1, nh)) + list(range(0, last + 1)) if x in alive)
+            last = h
+        else:
+            b = base_hash(balance, key)
+            best = max(b ^ host_hash(x, "r") for x in alive)
+            h = max(x for x in alive if (b ^ host_hash(x, "r")) == best)
+        order.append(h)
+        alive.remove(h)
+    return order
+
+
+def gen_one_alive(depth):
+    """pools of 2 and 3 single-proc hosts in which a first request has just been refused
+    by every host but one (disable-time 9: they stay out), for every position of the
+    survivor and every balance mode, followed by every history of length <= depth"""
+    out = []
+    for bal in range(4):
+        for nh in (2, 3):
+            for j in range(nh):
+                pre, key = [], 1
+                if bal == 1:        # rotate last_used_ndx so that the walk ends at j
+                    pre += ["a0.1.c=k", "c0"] * ((j + 1) % nh)
+                elif bal == 0:      # give host j the highest load: it is tried last
+                    if j != nh - 1:
+                        pre += ["a%d.1.c=p" % (5 - x) for x in range(j + 1)] + ["c%d" % (5 - x) for x in range(j)]
+                else:
+                    key = next(k for k in range(5000) if _order(bal, nh, k, -1, None)[-1] == j)
+                pre += ["a0.%d.c=%sk" % (key, "r" * (nh - 1)), "c0"]
+                pool = "/".join([ONE_HOST] * nh)
+                for n in range(0, depth + 1):
+                    for ops in itertools.product(ALPHA, repeat=n):
+                        out.append("gw %d 0 6 %s %s" % (bal, pool, " ".join(pre + list(ops))))
+    return out
+
+
+ONE_SEEN = set()                  # (balance, nhosts, position of the only active host) observed
+
+
 HAND = [
     "gw 0 0 3 1.2.3.0.0.r/1.2.3.0.0.r a0.1 a1.2 a2.3 e0.2 e0.1.r=df t1 t5 e1.2.s=r t1 t1 t1 t1",
     "gw 1 0 3 1.2.3.0.0.r/2.2.3.0.0.u/1.1.0.0.0.l a0.1.c=rrrrrrrr a1.2.c=k a2.3.c=k,w=e,r=x c1 e2.1.r=dgf",
@@ -466,6 +634,7 @@ def run(ctx):
     rng = ctx.rng
     streams = [
         ("gw(hand-written + exhaustive small scope)", HAND + gen_exhaustive(2 if q else 3)),
+        ("gw(exhaustive, exactly one host alive in each position)", gen_one_alive(1 if q else 2)),
         ("gw(fault scenarios: refuse/close/hang/timeout/abort/return)", gen_scenarios(rng, 10000 if q else 100000)),
         ("gw(random histories, healthy backends)", gen_random(rng, 3000 if q else 30000, 30, False)),
         ("gw(random histories, scripted faults)", gen_random(rng, 12000 if q else 150000, 40, True)),
@@ -477,6 +646,10 @@ def run(ctx):
             for o in t[5:]:
                 ctx.dist["op:" + o[0]] += 1
         ctx.differential(name, [exe], "gw", lines, oracle, classify)
+    want = set((b, nh, j) for b in range(4) for nh in (2, 3) for j in range(nh))
+    ctx.notes.append("one-alive stream: %d of %d (balance, pool size, survivor position) states observed in the "
+                     "implementation%s" % (len(ONE_SEEN & want), len(want),
+                                           "" if want <= ONE_SEEN else "; missing " + str(sorted(want - ONE_SEEN))))
     ctx.exhaustive = False
     ctx.notes.append("exhaustive: all histories of length <= %d over a %d-event alphabet x 4 balance modes x %d "
                      "pool shapes" % (2 if q else 3, len(ALPHA), len(SMALL_CFG)))
